@@ -164,6 +164,19 @@ def _confirm_failure(prop: str, failure: dict, first_failure: dict | None, histo
             if k >= len(cases):
                 break
             k = min(len(cases), k * 4)
+    if history and first_failure and history.get("all"):
+        # everything the shard did before the failure, earlier parts included
+        allc = history["all"]
+        cand = {"prop": prop, "part": history["part"], "sequence": [d for _, d in allc],
+                "sequence_parts": [p for p, _ in allc], "warm": history.get("warm", "none"),
+                "clause": first_failure["clause"], "detail": first_failure["detail"],
+                "hashseed": first_failure.get("hashseed", 0)}
+        path = _write_replay(prop, cand)
+        if _reproduces(prop, path):
+            print(f"failing case ({history['part']}, needs the {len(allc) - 1} case(s) the process ran before it, "
+                  f"earlier parts included): {cand['clause']}: {cand['detail']}")
+            return path
+        os.unlink(path)
     return None
 
 
